@@ -2462,5 +2462,12 @@ Qed.
 Lemma h_example_wf_destroy : Forall (wf_op kl5) (h_example ++ [ODestroy 0; ODestroy 1]).
 Proof. apply Forall_app. split; [exact h_example_wf|]. repeat constructor; simpl; lia. Qed.
 
+(* a history with key removals: middle, miss, first, (moved), last; then a key written into the emptied table *)
+Definition h_example_rk : list op :=
+  [ONew 0; ORead 0 fileB; OWriteKey 0 false key2; ORemoveKey 0 3; ORemoveKey 0 7; ORemoveKey 0 1; OMoveCtor 1 0; ORemoveKey 1 2;
+   OWriteKey 1 false key2].
+Lemma h_example_rk_wf : Forall (wf_op kl5) h_example_rk.
+Proof. unfold h_example_rk. repeat constructor; simpl; try lia; try discriminate; auto. Qed.
+
 Lemma all_gone_4 : forall w, objs w = [None; None; None; None] -> all_gone w.
 Proof. intros w H j. unfold get_obj. rewrite H. destruct j as [|[|[|[|[|j]]]]]; reflexivity. Qed.
